@@ -386,7 +386,178 @@ fn draw_glyph(ex: &mut Explorer, label: &dyn Fn() -> String, bytes: &[u8], gid: 
     }
 }
 
+// ---------------------------------------------------------------- CFF / CFF2 outlines at the u16 point-index limit
+
+fn dict_int(out: &mut Vec<u8>, v: u32) {
+    out.push(29);
+    out.extend_from_slice(&v.to_be_bytes());
+}
+
+fn index_of(items: &[Vec<u8>], is_cff2: bool) -> Vec<u8> {
+    let mut out = vec![];
+    if is_cff2 {
+        out.extend_from_slice(&(items.len() as u32).to_be_bytes());
+    } else {
+        out.extend_from_slice(&(items.len() as u16).to_be_bytes());
+    }
+    if items.is_empty() {
+        return out;
+    }
+    out.push(4);
+    let mut off = 1u32;
+    out.extend_from_slice(&off.to_be_bytes());
+    for it in items {
+        off += it.len() as u32;
+        out.extend_from_slice(&off.to_be_bytes());
+    }
+    for it in items {
+        out.extend_from_slice(it);
+    }
+    out
+}
+
+/// a two-glyph CFF (version 1) or CFF2 font whose glyph 1 has the given charstring; Private DICT with
+/// BlueValues so that the hinters have zones
+pub fn cff_font(cs: &[u8], is_cff2: bool) -> Vec<u8> {
+    let private: Vec<u8> = {
+        let mut p = vec![];
+        for v in [-15i32, 15, 685, 15] {
+            enc_int(&mut p, v, true);
+        }
+        p.push(6);
+        p
+    };
+    let gsubrs = index_of(&[vec![11]], is_cff2);
+    let table = if is_cff2 {
+        let top_len = 5 + 1 + 5 + 2;
+        let mut t: Vec<u8> = vec![2, 0, 5];
+        t.extend_from_slice(&(top_len as u16).to_be_bytes());
+        let charstrings = index_of(&[vec![], cs.to_vec()], true);
+        let cs_off = 5 + top_len + gsubrs.len();
+        let fd_off = cs_off + charstrings.len();
+        let mut font_dict = vec![];
+        let fd_index_len = 4 + 1 + 8 + 11;
+        let priv_off = fd_off + fd_index_len;
+        dict_int(&mut font_dict, private.len() as u32);
+        dict_int(&mut font_dict, priv_off as u32);
+        font_dict.push(18);
+        dict_int(&mut t, cs_off as u32);
+        t.push(17);
+        dict_int(&mut t, fd_off as u32);
+        t.extend_from_slice(&[12, 36]);
+        t.extend_from_slice(&gsubrs);
+        t.extend_from_slice(&charstrings);
+        t.extend_from_slice(&index_of(&[font_dict], true));
+        t.extend_from_slice(&private);
+        t
+    } else {
+        let mut t: Vec<u8> = vec![1, 0, 4, 4];
+        t.extend_from_slice(&index_of(&[b"A".to_vec()], false));
+        let top_len = 5 + 1 + 5 + 5 + 1;
+        let top_index_len = 2 + 1 + 8 + top_len;
+        let strings = index_of(&[], false);
+        let charstrings = index_of(&[vec![14], cs.to_vec()], false);
+        let cs_off = t.len() + top_index_len + strings.len() + gsubrs.len();
+        let priv_off = cs_off + charstrings.len();
+        let mut top = vec![];
+        dict_int(&mut top, cs_off as u32);
+        top.push(17);
+        dict_int(&mut top, private.len() as u32);
+        dict_int(&mut top, priv_off as u32);
+        top.push(18);
+        t.extend_from_slice(&index_of(&[top], false));
+        t.extend_from_slice(&strings);
+        t.extend_from_slice(&gsubrs);
+        t.extend_from_slice(&charstrings);
+        t.extend_from_slice(&private);
+        t
+    };
+    use write_fonts::tables::{head::Head, hhea::Hhea, hmtx::Hmtx, hmtx::LongMetric, maxp::Maxp};
+    let mut fb = write_fonts::FontBuilder::new();
+    let _ = fb.add_table(&Head { units_per_em: 1000, ..Default::default() });
+    let _ = fb.add_table(&Maxp { num_glyphs: 2, ..Default::default() });
+    let _ = fb.add_table(&Hhea { number_of_h_metrics: 2, ..Default::default() });
+    let _ = fb.add_table(&Hmtx::new(vec![LongMetric::new(500, 0), LongMetric::new(500, 0)], vec![]));
+    fb.add_raw(read_fonts::types::Tag::new(if is_cff2 { b"CFF2" } else { b"CFF " }), table);
+    fb.build()
+}
+
+/// charstring drawing `n` points in `contours` contours (rmoveto + zigzag rlineto batches), optionally
+/// with curves (3 points each) at the end
+fn points_charstring(n: usize, contours: usize, curves: bool, is_cff2: bool) -> Vec<u8> {
+    let mut cs = vec![];
+    let contours = contours.max(1);
+    let per = n / contours;
+    let mut left = n;
+    let mut i = 0usize;
+    for c in 0..contours {
+        let k = if c + 1 == contours { left } else { per };
+        left -= k;
+        if k == 0 {
+            continue;
+        }
+        enc_int(&mut cs, 3, false);
+        enc_int(&mut cs, 2, false);
+        cs.push(21);
+        let mut todo = k - 1;
+        while todo > 0 {
+            if curves && todo >= 3 && todo % 7 == 3 {
+                for v in [5, 3, -4, 3, 5, -3] {
+                    enc_int(&mut cs, v, false);
+                }
+                cs.push(8); // rrcurveto: 3 points
+                todo -= 3;
+                continue;
+            }
+            let b = todo.min(20);
+            for _ in 0..b {
+                enc_int(&mut cs, if i % 2 == 0 { 5 } else { -4 }, false);
+                enc_int(&mut cs, if i % 4 < 2 { 3 } else { -3 }, false);
+                i += 1;
+            }
+            cs.push(5);
+            todo -= b;
+        }
+    }
+    if !is_cff2 {
+        cs.push(14);
+    }
+    cs
+}
+
+/// CFF / CFF2 glyphs with 65534 .. 65537, 70000 and 131072 points (the autohinter and the CFF scaler index
+/// outline points with u16) in 1 / 2 / 300 contours, lines only and with curves, through every engine
+pub fn cff_point_totals(cfg: &Config, ex: &mut Explorer) {
+    let mut jobs: Vec<(usize, usize, bool, bool)> = vec![];
+    for n in [65_534usize, 65_535, 65_536, 65_537, 70_000, 131_072] {
+        for contours in [1usize, 2, 300] {
+            for curves in [false, true] {
+                for is_cff2 in [false, true] {
+                    if !cfg.thorough() && curves && contours == 300 {
+                        continue;
+                    }
+                    jobs.push((n, contours, curves, is_cff2));
+                }
+            }
+        }
+    }
+    let n_jobs = jobs.len();
+    let done = parallel(&jobs, worker_threads(), |(n, contours, curves, is_cff2), ex| {
+        let cs = points_charstring(*n, *contours, *curves, *is_cff2);
+        let bytes = cff_font(&cs, *is_cff2);
+        let label = || format!("ps=cff-point-totals points={n} contours={contours} curves={curves} cff2={is_cff2} (charstring: rmoveto + rlineto batches of 20{})", if *curves { " + rrcurveto" } else { "" });
+        ex.op(&label, "charstring::evaluate", &mut || {
+            let _ = charstring::evaluate(&cs, Index::Empty, None, None, &mut NopSink);
+        });
+        draw_glyph(ex, &label, &bytes, 1);
+        ex.count("cff-point-totals");
+    });
+    ex.absorb(done);
+    ex.notes.push(format!("CFF / CFF2 point totals at the u16 limit: {n_jobs} fonts through unhinted / CFF hinter / autohinter draws"));
+}
+
 pub fn run(cfg: &Config, ex: &mut Explorer, corpus: &[(String, Vec<u8>)]) {
+    cff_point_totals(cfg, ex);
     let thorough = cfg.thorough();
     let cs_progs = charstring_programs(thorough);
     let dict_progs = dict_programs(thorough);
